@@ -566,10 +566,10 @@ func runC05(c *Case, out func(string)) {
 			case "seek":
 				t := tok(l[1])
 				r := sec.cur.Seek(t)
-				observe("seek", b01(r), t)
+				observe("seek", c05b01(r), t)
 			case "next":
 				r := sec.cur.Next()
-				observe("next", b01(r), nil)
+				observe("next", c05b01(r), nil)
 			case "scan":
 				nScans++
 				limit, _ := strconv.Atoi(l[1])
@@ -809,7 +809,7 @@ func buildC05Stack(c *Case, dir string) (*c05Stack, int, error) {
 	return st, i, nil
 }
 
-func b01(b bool) string {
+func c05b01(b bool) string {
 	if b {
 		return "1"
 	}
